@@ -469,6 +469,21 @@ func runCheck(ps *propSpec, o checkOpts) checkResult {
 			infra = true
 			continue
 		}
+		if (!rr.Failed || rr.Oracle != c.rf.Oracle) && len(c.rf.Choices) > 0 {
+			// The minimised choice list does not fail in a fresh process.  Minimisation re-executes inside
+			// the worker, where code under test that carries state from one simulated run to the next keeps
+			// failing whatever is removed.  Fall back to the run as it was generated from (seed, run index).
+			orig := c.rf
+			orig.Choices = nil
+			origPath := c.path + ".orig.json"
+			ob, _ := json.Marshal(orig)
+			os.WriteFile(origPath, ob, 0644)
+			if r2, e2 := replayOnce(b, &orig, origPath); e2 == nil && r2.Failed && r2.Oracle == c.rf.Oracle {
+				c.rf.Choices = nil
+				c.rf.Note = "not minimised: the minimised form did not fail in a fresh process (the code under test keeps state between simulated runs inside one process); replays the run as generated from seed and run index"
+				rr = r2
+			}
+		}
 		if !rr.Failed || rr.Oracle != c.rf.Oracle {
 			fmt.Printf("VERIF-INFRA candidate %s (oracle %s) did not reproduce in a fresh process (got failed=%v oracle=%s): NOT reported as a violation; determinism defect in the harness\n", filepath.Base(c.path), c.rf.Oracle, rr.Failed, rr.Oracle)
 			infra = true
